@@ -15,6 +15,36 @@ Proof. split; vm_compute; reflexivity. Qed.
 Lemma refuted_F20b : has_alnum w_dollar = false /\ valid_name (method_name w_dollar) = false.
 Proof. split; vm_compute; reflexivity. Qed.
 
+(* "$" never reaches an oracle: refuted for ANY behaviour of the Unicode database *)
+Lemma refuted_F20c : forall u_word u_lower u_isdigit u_ign u_cased,
+  has_alnum w_dollar = false /\ module_name u_word u_lower u_isdigit u_ign u_cased w_dollar = [].
+Proof. intros. split; vm_compute; reflexivity. Qed.
+Lemma refuted_F20d : forall u_word u_lower u_title u_ign u_cased,
+  first_alnum_not_digit w_1st = false
+  /\ is_ident (tag_attr_name u_word u_lower u_ign u_cased w_1st) = false
+  /\ is_ident (tag_class_name u_word u_lower u_title u_ign u_cased w_1st) = false
+  /\ tag_attr_name u_word u_lower u_ign u_cased w_dollar = [].
+Proof. intros. repeat split; vm_compute; reflexivity. Qed.
+Lemma refuted_F20g : forall u_word u_lower u_ign u_cased,
+  is_kw (tag_attr_name u_word u_lower u_ign u_cased w_class) = true.
+Proof. intros. vm_compute. reflexivity. Qed.
+(* U+00B2 SUPERSCRIPT TWO: Python's re says \w, str.lower leaves it alone (the run's tables confirm both) *)
+Lemma refuted_F20h :
+  let u_word := fun c => c =? 178 in let id1 := fun c : N => [c] in let no := fun _ : N => false in
+  no_foreign_word u_word w_x2 = false /\ tag_attr_name u_word id1 no no w_x2 = w_x2 /\ is_ident w_x2 = false.
+Proof. repeat split; vm_compute; reflexivity. Qed.
+Lemma refuted_F20i : no_trailing_lf w_a_nl = false /\ is_valid_python_identifier w_a_nl = true /\ is_ident w_a_nl = false.
+Proof. repeat split; vm_compute; reflexivity. Qed.
+
+(* non-vacuity: an ordinary camel-case name meets every guard and is transformed non-trivially *)
+Definition w_ok : str := [103;101;116;72;84;84;80;82;101;115;112;111;110;115;101;50].   (* getHTTPResponse2 *)
+Lemma guards_nonvacuous :
+  guard_F20a w_ok = true /\ has_alnum w_ok = true /\ first_alnum_not_digit w_ok = true
+  /\ class_name w_ok = [71;101;116;72;116;116;112;82;101;115;112;111;110;115;101;50]            (* GetHttpResponse2 *)
+  /\ method_name w_ok = [103;101;116;95;104;116;116;112;95;114;101;115;112;111;110;115;101;50]  (* get_http_response2 *)
+  /\ module_name_tok w_ok = [103;101;116;95;104;116;116;112;95;114;101;115;112;111;110;115;101;95;50]. (* get_http_response_2 *)
+Proof. repeat split; vm_compute; reflexivity. Qed.
+
 (* ================================================================= character-class facts *)
 Lemma is_alnum_ident_char : forall c, is_alnum c = true -> is_ident_char c = true.
 Proof. intros c H. unfold is_ident_char. rewrite H. reflexivity. Qed.
@@ -499,9 +529,9 @@ Qed.
 Lemma starts_upper_or_us_app : forall a b, a <> [] -> starts_upper_or_us (a ++ b) = starts_upper_or_us a.
 Proof. intros [|c a] b H; [congruence | reflexivity]. Qed.
 
-Section OracleFree.
+Section ModuleProofs.
   (* ANY behaviour of the Unicode database on non-ASCII code points *)
-  Variables (u_word : N -> bool) (u_lower u_upper u_title : N -> str) (u_isdigit u_ign u_cased : N -> bool).
+  Variables (u_word : N -> bool) (u_lower : N -> str) (u_isdigit u_ign u_cased : N -> bool).
 
   Lemma module_name_tok_path : forall s, tokens s <> [] ->
     module_name u_word u_lower u_isdigit u_ign u_cased s = module_name_tok s.
@@ -514,6 +544,8 @@ Section OracleFree.
     intros s H. rewrite module_name_tok_path by (apply tokens_nonempty, H).
     apply module_of_tokens_valid; [apply tokens_nonempty, H | apply tokens_good].
   Qed.
+
+End ModuleProofs.
 
   (* ================================================================= enum member names *)
   Lemma member_char_ident : forall c, is_member_char c = true -> is_ident_char c = true.
@@ -601,6 +633,14 @@ Section OracleFree.
     apply forallb_app_iff. split; assumption.
   Qed.
 
+  Lemma dec_member : forall n, forallb is_member_char (dec n) = true.
+  Proof.
+    intro n. unfold dec. induction (N.to_uint n); simpl; try reflexivity; exact IHu.
+  Qed.
+
+Section EnumProofs.
+  Variable u_upper : N -> str.   (* ANY behaviour of str.upper on non-ASCII code points *)
+
   Lemma enum_str_base_member : forall v, member_str (enum_str_base u_upper v).
   Proof.
     intro v. unfold enum_str_base. cbv zeta.
@@ -623,11 +663,6 @@ Section OracleFree.
   Proof.
     intro v. unfold enum_member_str.
     apply member_tail_valid; [exact (proj1 s_member_ok) | exact (proj2 s_member_ok) | apply enum_str_base_member].
-  Qed.
-
-  Lemma dec_member : forall n, forallb is_member_char (dec n) = true.
-  Proof.
-    intro n. unfold dec. induction (N.to_uint n); simpl; try reflexivity; exact IHu.
   Qed.
 
   Lemma enum_int_base_member : forall v neg fb, member_str (enum_int_base u_upper v neg fb).
@@ -661,4 +696,4 @@ Section OracleFree.
       + apply member_str_app; [apply s_value_ok | exact (proj2 H2)].
       + rewrite starts_upper_or_us_app by exact Hne. apply s_value_ok.
   Qed.
-End OracleFree.
+End EnumProofs.
